@@ -446,6 +446,11 @@ ESCAPE_RICH = [b'"\\ud83d\\ude00"', b'["\\u00e9x","\\ud83d\\ude00"]', b'{"k\\n":
                b'"' + b"x" * 52 + b'\\ud83d\\ude00"', b'"' + b"y" * 58 + b'\\u00e9"']
 
 
+def after_error(entry):
+    """Write entry: a caller that keeps writing (empty writes, the rest, the document again) after a Write returned an error."""
+    return dict(sub=dict(aftererr=True)) if entry == "write" else {}
+
+
 def c03(ctx):
     rnd = ctx.rng
     cases = []
@@ -458,7 +463,7 @@ def c03(ctx):
             ents = ["parse", ENTRIES[1 + n % 4]]
             for e in ents:
                 cases.append(case("C03", "parse", fmt, doc=doc, entry=e, measure=(e in ("parse", "decreader")),
-                                  origin="Gen-any %s" % r["class"], **sched_variants(ctx, doc, e, rnd)))
+                                  origin="Gen-any %s" % r["class"], **after_error(e), **sched_variants(ctx, doc, e, rnd)))
         valid = [r["doc"] for r in GENS[fmt](ctx, "lang", quick=True) if r["class"] == "complete" and len(r["doc"]) >= 3]
         rnd.shuffle(valid)
         valid = valid[:150 if ctx.quick else 1500] + ([list(t) for t in ESCAPE_RICH] if fmt == "json" else [])
@@ -467,7 +472,7 @@ def c03(ctx):
             ents = [ENTRIES[n % 5]] if ctx.quick and how != "hugelen" else ENTRIES
             for e in ents:
                 cases.append(case("C03", "parse", fmt, doc=doc, entry=e, measure=True, origin="mutation " + how,
-                                  **sched_variants(ctx, doc, e, rnd)))
+                                  **after_error(e), **sched_variants(ctx, doc, e, rnd)))
     number(cases)
     tf, st = core.run_harness(ctx, cases)
     failed, n = core.tlc_validate(ctx, "TraceCodec", tf)
@@ -477,7 +482,9 @@ def c03(ctx):
              "within that bound) with their classification by the reference automaton; (b) seeded mutations of valid documents from the "
              "language generators (plus escape-rich JSON texts): every truncation point, byte substitutions, every removed span of 1-6 bytes, "
              "64-bit length fields set to 2^31..2^64-1. Every buffer handed to the code has capacity = length. Each input is "
-             "run through Parse, Write* (+end), ParseReader, and both pull decoders under a deadline in a child process; TraceCodec "
+             "run through Parse, Write* (+end; and after a Write that returned an error the caller keeps writing: an empty write, the "
+             "remaining chunks, an empty write, the whole input again - answers not judged, only that there are answers), ParseReader, "
+             "and both pull decoders under a deadline in a child process; TraceCodec "
              "requires outcome ok, allocation <= 64KiB + 64*len, events <= 8 + 4*len, and an error for inputs the reference classifies "
              "as incomplete. Distinct = distinct (bytes, entry, chunking); non-trivial = at least 2 bytes.",
         nontrivial=lambda c: len(c["doc"]) >= 2,
